@@ -1070,6 +1070,60 @@ func (g *gen) scenNotifyFailSend() core.Case {
 	return g.finish("notifyfail-send")
 }
 
+// round 3 (seed C20-6): a send is refused (backend rejection of some class, or the subscription fails), nothing else
+// happens, and the SAME send is retried against an accepting backend: it must succeed and spend the same coins.  The
+// amount is chosen so that the request needs one coin, most coins or the only coin of the account.
+func (g *gen) scenRefusedSendRetry() core.Case {
+	g.start()
+	n := 1 + g.rng.Intn(3)
+	a, amts := g.fundAcct0(n)
+	g.add("block txs=" + a)
+	g.add("state")
+	var total, largest int64
+	for _, v := range amts {
+		total += v
+		if v > largest {
+			largest = v
+		}
+	}
+	amt := largest / 2
+	if n > 1 && g.rng.Intn(2) == 0 {
+		amt = total - total/5 // needs more than the largest coin alone in most draws
+	}
+	var sel []string
+	if g.rng.Intn(4) == 0 {
+		sel = []string{a + ":0"}
+		amt = amts[0] / 2
+	}
+	how := []string{"rejected", "rejected", "notifyfail"}[g.rng.Intn(3)]
+	o := createOpt{api: "send", acct: 0, scope: "any", chg: "same", minconf: 1, rate: 1000, strat: "largest",
+		outs: []string{fmt.Sprintf("xwpkh:%d", amt)}, sel: sel}
+	rounds := 1 + g.rng.Intn(2)
+	for i := 0; i < rounds; i++ {
+		ref := o
+		if how == "notifyfail" {
+			ref.ans, ref.notify = g.ans.pick(g.rng, "accepted"), "fail"
+		} else {
+			ref.ans = g.ans.pick(g.rng, "rejected")
+		}
+		g.create(ref)
+		g.add("state")
+	}
+	g.tag("refused-send-" + how)
+	if g.rng.Intn(3) == 0 {
+		g.simpleCreate("dry", 0, "any", 1, amt, sel)
+	}
+	retry := o
+	retry.ans = g.ans.pick(g.rng, []string{"accepted", "mempool"}[g.rng.Intn(2)])
+	s := g.create(retry)
+	g.add("state")
+	if g.rng.Intn(2) == 0 {
+		g.add("block txs=" + s)
+		g.add("state")
+	}
+	return g.finish("refused-send-retry")
+}
+
 // automatic coin selection that needs a second pass of the author loop: the largest coin covers outputs + the first
 // fee estimate (no inputs) but not the fee for its own input, so the source is asked again with a raised target and
 // the NEXT coin is needed (seed C07-4)
@@ -1290,7 +1344,7 @@ func (engine) Generate(rng *rand.Rand, tier string) []core.Case {
 	for i := 0; i < nScen; i++ {
 		cases = append(cases, g.scenCoinbase(), g.scenLocks(), g.scenSelection(), g.scenChain(), g.scenAnswers(),
 			g.scenReorg(), g.scenDoubleSpend(), g.scenChangeless(),
-			g.scenLockedWallet(), g.scenNotifyFailSend(), g.scenSecondPass(), g.scenRepublishTracked(), g.scenDoubleResync())
+			g.scenLockedWallet(), g.scenNotifyFailSend(), g.scenSecondPass(), g.scenRepublishTracked(), g.scenDoubleResync(), g.scenRefusedSendRetry())
 	}
 	if tier == "thorough" {
 		cases = append(cases, g.enumSelections()...)
